@@ -34,7 +34,7 @@ class Comp:
     def __init__(self, name, site, f, members, item_dims=1, others=None, float_out=False, grouping=True, cfg=None, line=None, int_dtypes=False, group_rows=None, fresh=None):
         self.name, self.site, self.f, self.members = name, site, f, members
         self.fresh = fresh                    # optional factory of a pristine component: the per-member reference is then computed on a new object each time
-        self.int_dtypes = int_dtypes          # hard bit inputs: the same answer for int32 / int64 tensors, which must stay untouched
+        self.int_dtypes = int_dtypes          # hard bit inputs: the same answer for int32 / int64 / uint8 / int8 / float64 tensors, which must stay untouched
         self.group_rows = group_rows          # extra (B, m*n) row compositions (lists of member indices) for special paths
         self.item_dims, self.float_out, self.grouping = item_dims, float_out, grouping
         self.cfg = cfg or {}
@@ -105,7 +105,7 @@ def check_component(ctx, comp, ops):
         rec("repeat", False, error="%s: %s" % (type(e).__name__, str(e)[:100]))
     # integer dtypes: same answer, input untouched
     if comp.int_dtypes:
-        for dt in (torch.int32, torch.int64):
+        for dt in (torch.int32, torch.int64, torch.uint8, torch.int8, torch.float64):
             xi = x.to(dt)
             before = xi.clone()
             try:
